@@ -310,7 +310,8 @@ PROPS["C11"] = dict(
     level_note="Trusted: Lean kernel + standard axioms; hook verif_dump_tables (read-only); memoCheck is executable specification (not a theorem); the order in which the searches emit models after "
                "different histories is not claimed by the property (compared with the model on explored histories only); seeded Rand runs are covered by C05's runs.",
     technique="Lean 4 proof (append-only store invariant; answers as functions of denotations, via the exactness theorems) + handle-exact correspondence over call histories + audit of the real memo tables",
-    jobs=[Job("adf", 500, 20000, size=5, size_thorough=6, extra=("hist",), relevant=None, nontrivial=nt_adf)],
+    jobs=[Job("adf", 500, 20000, size=5, size_thorough=6, extra=("hist",), relevant=None, nontrivial=nt_adf),
+          Job("adf", 80, 2500, size=90, size_thorough=130, extra=("histwide",), relevant=None, nontrivial=lambda st: int(st.get("n", 0)) >= 65, label="wide-histories")],
     rule=ADF_GEN + "2-10 random API calls on one object (native, hybrid or pre-grounded), then six probe calls on it and on a fresh twin; memoCheck of the real tables; non-trivial = distinct history on an ADF with >= 2 statements and >= 5 nodes",
     assumptions=["well-formed ADFs"],
 )
